@@ -938,6 +938,10 @@ impl World {
             code_ids: [pm_code, fm_code, em_code, fc_code, rj_code],
         };
         w.reset_mon();
+        // cw-multi-test's set_block() persists the (empty) staking queue the first time it is
+        // called; do it once here so that no later snapshot/restore pair differs by that key
+        let b = w.app.block_info();
+        w.app.set_block(b);
         w
     }
 
